@@ -10,6 +10,7 @@ func main() {
 		fmt.Fprintln(os.Stderr, "usage: vh <cmd> ...")
 		os.Exit(2)
 	}
+	applyGates()
 	switch os.Args[1] {
 	case "gen-unicode":
 		genUnicode(os.Stdout)
